@@ -170,8 +170,11 @@ static void do_op(int op)
       expect(op, r, r == REPROC_EINVAL, "no such stream");
       break;
     case OP_POLL: {
-      reproc_event_source src = { P, 15, 0x7f };
-      r = hx_poll(&src, 1, 0);
+      /* a source without process comes first, still carrying the events of some earlier poll (the field is output-only): it is ignored */
+      reproc_event_source srcs[2] = { { NULL, 15, 0x7f }, { P, 15, 0x7f } };
+      r = hx_poll(srcs, 2, 0);
+      reproc_event_source src = srcs[1];
+      if (r >= 0 && srcs[0].events) expect(op, r, 0, "a source without process reports events");
       int pollable = 0;
       if (life != L_NS) {
         for (int i = 0; i < 3; i++) pollable |= endst[i] == E_OPEN && end_held(i);
